@@ -288,11 +288,22 @@ class _FPCore2FPy:
                 exprs = [self._visit(e, ctx) for e in e.children]
                 return Compare(ops, exprs, None)
             case fpc.NEQ():
-                # TODO: need to check if semantics are the same
                 assert len(e.children) >= 2, "not enough children"
-                ops = [CompareOp.NE for _ in e.children[1:]]
                 exprs = [self._visit(e, ctx) for e in e.children]
-                return Compare(ops, exprs, None)
+                if len(exprs) == 2:
+                    return Compare([CompareOp.NE], exprs, None)
+                # n-ary `!=` is "all distinct", not the chain `a != b != c`:
+                # bind each operand once, then compare every pair
+                names = []
+                for expr in exprs:
+                    t = self.gensym.fresh('t')
+                    ctx.stmts.append(Assign(t, None, expr, None))
+                    names.append(t)
+                pairs: list[Expr] = [
+                    Compare([CompareOp.NE], [Var(a, None), Var(b, None)], None)
+                    for i, a in enumerate(names) for b in names[i + 1:]
+                ]
+                return And(pairs, None)
             case fpc.Size():
                 # BUG: titanfp package says `fpc.Size` is n-ary
                 if len(e.children) != 2:
